@@ -12,6 +12,7 @@ import (
 	"time"
 
 	"github.com/free5gc/go-upf/internal/pfcp"
+	"github.com/free5gc/go-upf/internal/report"
 )
 
 type MURR struct {
@@ -100,7 +101,8 @@ type bufPkt struct {
 	action uint16
 	b      []byte
 	sess   *MSess
-	state  string // queued dropped emitted discarded unknown
+	state  string // inflight queued emitted discarded ...
+	nobuff bool   // the notification did not ask for buffering
 }
 
 func newModel(s *Sim) *Model {
@@ -838,29 +840,48 @@ func (m *Model) onAnswer(ctx *StepCtx) {
 
 func (m *Model) onOther(ctx *StepCtx) {}
 
-func (m *Model) noteReportForwarded(sr interface{}) {}
+// noteReportForwarded: a notification leaves the (interposed) report queue for the server.
+func (m *Model) noteReportForwarded(sr report.SessReport) {
+	for _, r := range sr.Reports {
+		d, ok := r.(report.DLDReport)
+		if !ok || len(d.BufPkt) < 8 {
+			continue
+		}
+		p := m.bufEmit[be.Uint64(d.BufPkt[:8])]
+		if p == nil || p.state != "inflight" {
+			continue
+		}
+		x := m.sess[p.seid]
+		if m.curCtx != nil {
+			m.curCtx.bufNotes = append(m.curCtx.bufNotes, p)
+		}
+		switch {
+		case x == nil || x != p.sess:
+			// the session it was handed up for has ended (its SEID may live on in another)
+			p.state = "late-for-ended-session"
+			m.s.probe("buf.late.for.ended.session", 1)
+			if x != nil {
+				x.Stale[p.pdr]++ // the new holder of the SEID may end up holding it; it must never emit it
+			}
+		case p.nobuff:
+			p.state = "notbuffered"
+		case !x.Req[RuleRef{"pdr", uint32(p.pdr)}]:
+			x.Stale[p.pdr]++
+			p.state = "nopdr"
+		default:
+			x.Buf[p.pdr] = append(x.Buf[p.pdr], p.tag)
+			p.state = "queued"
+		}
+	}
+}
 
 func (m *Model) noteBufferEmitted(seid uint64, pdr uint16, action uint16, tag uint64, b []byte) {
 	p := &bufPkt{tag: tag, seid: seid, pdr: pdr, action: action, b: b, state: "unknown"}
 	m.bufEmit[tag] = p
-	if m.curCtx != nil {
-		m.curCtx.bufNotes = append(m.curCtx.bufNotes, p)
-	}
 	x := m.sess[seid]
-	if x == nil {
-		p.state = "nosession"
-		return
-	}
-	p.sess = x
-	if action&0x4 != 0 && !x.Req[RuleRef{"pdr", uint32(pdr)}] {
-		// a notification for a PDR id the session does not have: whatever the UPF does
-		// with it is outside what C13 states (it may hold it)
-		x.Stale[pdr]++
-		p.state = "nopdr"
-	} else if action&0x4 != 0 { // BUFF
-		x.Buf[pdr] = append(x.Buf[pdr], tag)
-		p.state = "queued"
-	} else {
-		p.state = "notbuffered"
+	p.sess = x           // nil: no session holds that SEID now
+	p.state = "inflight" // judged when the notification reaches the server
+	if action&0x4 == 0 {
+		p.nobuff = true
 	}
 }
